@@ -282,7 +282,9 @@ func execDef(x *fw.Ctx, c Case) {
 	obs["probes_original"] = pa
 	for k := range pa {
 		if strings.HasPrefix(pa[k], "error:") {
-			x.Cover("probe-error-in-original")
+			x.Cover("probe-error-in-original:" + c.Kind)
+		} else {
+			x.Cover("probe-value-in-original:" + c.Kind)
 		}
 		if pa[k] != pb[k] {
 			x.Fail(sigOf(c, "behaviour"), "%v: probe %s gives %s in the original world and %s after reloading the load form text (margin %d)\n%s",
@@ -522,7 +524,9 @@ func execSession(x *fw.Ctx, c Case) {
 		src := c.Items[p.item].Probes[p.k]
 		pa, pb := probeOut(src, outs[nprobeA+k]), probeOut(src, bouts[2+k])
 		if strings.HasPrefix(pa, "error:") {
-			x.Cover("probe-error-in-original")
+			x.Cover("probe-error-in-original:" + c.Items[p.item].Kind)
+		} else {
+			x.Cover("probe-value-in-original:" + c.Items[p.item].Kind)
 		}
 		if pa != pb {
 			it := c.Items[p.item]
